@@ -26,10 +26,12 @@ struct Ctx {
         } else {
             m = std::make_unique<Machine>();
         }
+        raw0 = m->teakra->GetDspMemory(); // a host keeps this pointer for the life of the object, across Reset
         m->teakra->Reset();
     }
+    u8* raw0 = nullptr;
     u8* Raw() {
-        return m->teakra->GetDspMemory();
+        return raw0;
     }
     u16 RawWord(u32 p) {
         return Raw()[2 * p] | (Raw()[2 * p + 1] << 8);
@@ -321,6 +323,11 @@ inline void SelfModifying(Result& res, Ctx& c, std::unordered_set<u64>& dig) {
             ++res.evaluations;
             res.transitions += k.cycles;
             dig.insert(Mix(ci * 2 + split) ^ r.a[0]);
+            if (t.GetDspMemory() != c.raw0 || (c.raw0[2 * k.r4] | (c.raw0[2 * k.r4 + 1] << 8)) != t.ProgramRead(k.r4))
+                res.AddViolation(Fmt("c11:raw-pointer-after-reset:%s", c.user ? "user-memory" : "own-memory"),
+                                 Fmt("after %zu Reset calls the pointer obtained from GetDspMemory() at construction no longer shows the memory the other views use (GetDspMemory() now %s)",
+                                     ci * 2 + split + 2, t.GetDspMemory() == c.raw0 ? "the same" : "different"),
+                                 Fmt("c11 %d selfmod 0", c.user ? 1 : 0));
             u16 seen = t.ProgramRead(k.r4);
             if (!ok || r.a[0] != k.want_a0 || seen != 0x67D0)
                 res.AddViolation(Fmt("c11:self-modifying:%s:%s", split ? "stepped" : "one-call", c.user ? "user-memory" : "own-memory"),
